@@ -74,7 +74,8 @@ func checkLeaf(c *tls.Certificate, host string, pool *x509.CertPool) string {
 		if len(leaf.DNSNames) != 0 || len(leaf.IPAddresses) != 1 || !leaf.IPAddresses[0].Equal(ip) {
 			return fmt.Sprintf("wrong-sans: dns %v ip %v", leaf.DNSNames, leaf.IPAddresses)
 		}
-	} else if len(leaf.IPAddresses) != 0 || len(leaf.DNSNames) != 1 || !strings.EqualFold(leaf.DNSNames[0], host) {
+	} else if len(leaf.IPAddresses) != 0 || len(leaf.DNSNames) != 1 || !strings.EqualFold(strings.TrimSuffix(leaf.DNSNames[0], "."), strings.TrimSuffix(host, ".")) {
+		// (a fully qualified spelling and the plain one name the same host: either form in the SAN is the host's own)
 		return fmt.Sprintf("wrong-sans: dns %v ip %v", leaf.DNSNames, leaf.IPAddresses)
 	}
 	priv, ok := c.PrivateKey.(*ecdsa.PrivateKey)
@@ -254,6 +255,25 @@ func drawHist(t *rapid.T) Hist {
 	var h Hist
 	for i := rapid.IntRange(1, 3).Draw(t, "hosts"); i > 0; i-- {
 		h.Hosts = append(h.Hosts, drawHostPort(t))
+	}
+	// other spellings of the first host: clients write the same name in upper case, fully qualified with
+	// a trailing dot, or with another port; each spelling must still get a certificate it can verify
+	if hn, port, err := net.SplitHostPort(h.Hosts[0]); err == nil && net.ParseIP(hn) == nil && rapid.IntRange(0, 2).Draw(t, "respell") == 0 {
+		for _, k := range rapid.SliceOfNDistinct(rapid.SampledFrom([]string{"dot", "upper", "lower", "port"}), 1, 2, rapid.ID[string]).Draw(t, "spellings") {
+			switch k {
+			case "dot":
+				h.Hosts = append(h.Hosts, hn+".:"+port)
+			case "upper":
+				h.Hosts = append(h.Hosts, strings.ToUpper(hn)+":"+port)
+			case "lower":
+				h.Hosts = append(h.Hosts, strings.ToLower(hn)+":"+port)
+			case "port":
+				h.Hosts = append(h.Hosts, hn+":8444")
+			}
+		}
+		if len(h.Hosts) > 3 {
+			h.Hosts = append(h.Hosts[:1], h.Hosts[len(h.Hosts)-2:]...)
+		}
 	}
 	for i := rapid.IntRange(2, 8).Draw(t, "steps"); i > 0; i-- {
 		st := Step{Host: rapid.IntRange(0, 2).Draw(t, "host")}
